@@ -501,11 +501,10 @@ impl UnixStr {
         if next_slash_back == 0 {
             next_slash_back += 1;
         }
-        unsafe {
-            Some(UnixString(
-                self.0.get_unchecked(..=next_slash_back).to_vec(),
-            ))
-        }
+        // Copy up to, but not including, the slash (or only the root slash), then null terminate
+        let mut parent = unsafe { self.0.get_unchecked(..next_slash_back).to_vec() };
+        parent.push(NULL_BYTE);
+        Some(UnixString(parent))
     }
 }
 
